@@ -260,6 +260,12 @@ func (f *STFS) Initialize(rootProposal string, rootPerm os.FileMode) (root strin
 				return "", err
 			}
 
+			// The tape could not be indexed up to its end, i.e. because its last record is incomplete. If a root
+			// directory has been found, keep what could be indexed instead of adding a second root to the tape
+			if root, err := f.metadata.Metadata.GetRootPath(context.Background()); err == nil {
+				return root, nil
+			}
+
 			return mkdirRoot()
 		}
 
